@@ -9,6 +9,7 @@ import (
 	"os/exec"
 	"path"
 	"path/filepath"
+	"sort"
 	"strings"
 	"sync"
 	"syscall"
@@ -45,6 +46,13 @@ type copyCase struct {
 	Inc      []string   `json:"inc"`
 	Exc      []string   `json:"exc"`
 	Origin   string     `json:"origin"`
+	// Model: the case was enumerated by TLC from spec/CopyFilterMC.tla; the written set of the ALGORITHM model
+	Model *copyModel `json:"model,omitempty"`
+}
+
+type copyModel struct {
+	Name    string   `json:"name"`
+	Written []string `json:"written"`
 }
 
 const secretA, secretB = "TOP-SECRET-OUTSIDE-A", "TOP-SECRET-OUTSIDE-B"
@@ -293,6 +301,13 @@ func copyChild(args []string) {
 			"req": vt.Ev{"sp": sp, "dp": splitArg(cc.DstArg), "slash": strings.HasSuffix(cc.DstArg, "/") && strings.Trim(cc.DstArg, "/") != "",
 				"contents": cc.Contents, "replace": cc.Replace, "uid": cc.Uid, "gid": cc.Gid, "mode": cc.Mode, "sym": cc.Sym, "utime": utimeStr, "wild": wild},
 			"filter": vt.Ev{"on": false}, "input": vt.Opaque(cc)}
+		if cc.Model != nil {
+			wr := [][][]int{}
+			for _, q := range cc.Model.Written {
+				wr = append(wr, vt.P(q))
+			}
+			ev["model"] = vt.Ev{"written": wr}
+		}
 		if cc.Kind == "filter" {
 			paths := make([]string, len(srcSnap))
 			for i, e := range srcSnap {
@@ -622,6 +637,42 @@ func Copy(c *Ctx) error {
 						}
 					}
 				}
+			}
+			// the pattern lists TLC enumerated from spec/CopyFilterMC.tla on the model's own tree, with the algorithm model's written set
+			if gen := os.Getenv("VERIF_GEN_DIR"); gen != "" {
+				files, _ := filepath.Glob(filepath.Join(gen, "copycase_*.ndjson"))
+				sort.Strings(files)
+				mt := filterModelTree(c)
+				for _, f := range files {
+					err := readLines(f, func(ln []byte) error {
+						var fc struct {
+							Name    string   `json:"name"`
+							Mode    string   `json:"mode"`
+							Pats    []string `json:"pats"`
+							Written []string `json:"written"`
+						}
+						if err := json.Unmarshal(ln, &fc); err != nil {
+							return err
+						}
+						cc := def
+						cc.Kind, cc.Src, cc.SrcArg, cc.DstArg, cc.Contents, cc.Origin = "filter", mt, "/", "/", true, "copyModel/"+fc.Name
+						cc.Model = &copyModel{Name: fc.Name, Written: fc.Written}
+						if cc.Model.Written == nil {
+							cc.Model.Written = []string{}
+						}
+						if fc.Mode == "inc" {
+							cc.Inc = fc.Pats
+						} else {
+							cc.Exc = fc.Pats
+						}
+						cases = append(cases, cc)
+						return nil
+					})
+					if err != nil {
+						return err
+					}
+				}
+				c.Stats.Note(fmt.Sprintf("%d pattern lists enumerated by TLC from CopyFilterMC, each with the algorithm model's written set", len(files)))
 			}
 			for i := 0; i < n; i++ {
 				t := filterTree(c)
